@@ -645,6 +645,8 @@ def show(v):
         return out + ["\n}"]
     if k == "fn":
         return ["<closure>" if v.get("lit") else "<function>"]
+    if k == "handle":
+        return ["{\n    join: <builtin-function>\n}"]
     if k == "anymsg":
         return [AnyMsg()]
     raise ValueError("cannot show %r" % k)
